@@ -1579,11 +1579,13 @@ fn cast_num(
             // float to int
 
             // cranelift can only convert floats to i32 or i64, so we do that first,
-            // then cast the i32 or i64 to the actual one we want
-            let int_to = match cast_from.bit_width() {
-                32 => types::I32,
-                64 => types::I64,
-                _ => unreachable!(),
+            // then cast the i32 or i64 to the actual one we want.
+            // the intermediate int is chosen by the *target* width, so that e.g. `u64.(some_f32)`
+            // isn't saturated at 32 bits
+            let int_to = if cast_to.bit_width() > 32 {
+                types::I64
+            } else {
+                types::I32
             };
 
             let first_cast = if cast_to.signed {
@@ -1593,7 +1595,7 @@ fn cast_num(
             };
 
             // now we can convert the `first_cast` int value to the actual int type we want
-            match cast_from.bit_width().cmp(&cast_to.bit_width()) {
+            match (int_to.bits() as u8).cmp(&cast_to.bit_width()) {
                 std::cmp::Ordering::Less if cast_to.signed => {
                     builder.ins().sextend(cast_to.ty, first_cast)
                 }
@@ -1605,17 +1607,17 @@ fn cast_num(
         (false, true) => {
             // int to float
 
-            // first we have to convert the int to an int that can converted to float
-            let int_to = match cast_to.bit_width() {
-                32 => types::I32,
-                64 => types::I64,
-                _ => unreachable!(),
+            // first we have to convert the int to an int that can converted to float.
+            // the intermediate int is chosen by the *source* width, so that e.g. `f32.(some_i64)`
+            // doesn't lose the upper 32 bits
+            let int_to = if cast_from.bit_width() > 32 {
+                types::I64
+            } else {
+                types::I32
             };
 
-            let first_cast = match cast_from.bit_width().cmp(&cast_to.bit_width()) {
-                std::cmp::Ordering::Less if cast_from.signed && cast_to.signed => {
-                    builder.ins().sextend(int_to, val)
-                }
+            let first_cast = match cast_from.bit_width().cmp(&(int_to.bits() as u8)) {
+                std::cmp::Ordering::Less if cast_from.signed => builder.ins().sextend(int_to, val),
                 std::cmp::Ordering::Less => builder.ins().uextend(int_to, val),
                 std::cmp::Ordering::Equal => val,
                 std::cmp::Ordering::Greater => builder.ins().ireduce(int_to, val),
